@@ -33,6 +33,8 @@ type simRegion struct {
 	name        []byte
 	addr        string
 	faults      []string            // exception kinds answered to the next requests (probes included)
+	hiddenN     int                 // hbase:meta does not show this region for that many more lookups
+	probeAlways string              // every availability probe of this region is answered with this exception kind
 	mutateValue []byte              // non-nil: a mutate is answered with one result cell holding this value
 	keyFaults   map[string][]string // per row key: exception kinds answered to its next requests
 	bounce      []string            // hbase:meta reports these addresses in turn; all of them host the region
@@ -376,15 +378,10 @@ func (s *simConn) serve(call hrpc.Call) {
 			return
 		}
 	}
-	if len(reg.faults) > 0 && strings.HasPrefix(reg.faults[0], "PROBE:") && sv.kind == "probe" {
-		k := strings.TrimPrefix(reg.faults[0], "PROBE:")
-		reg.faults = reg.faults[1:]
-		finish(k)
-		deliver(nil, excErr(k))
+	if reg.probeAlways != "" && sv.kind == "probe" {
+		finish(reg.probeAlways)
+		deliver(nil, excErr(reg.probeAlways))
 		return
-	}
-	for len(reg.faults) > 0 && strings.HasPrefix(reg.faults[0], "PROBE:") && sv.kind != "probe" {
-		reg.faults = reg.faults[1:] // probe-only faults do not apply to requests
 	}
 	if kf := reg.keyFaults[string(call.Key())]; len(kf) > 0 && sv.kind != "probe" && strings.HasPrefix(kf[0], "HOLD:") {
 		// the answer (an exception of the given kind) arrives only when the scenario releases it
@@ -448,16 +445,26 @@ func (c *simCluster) metaScan(r *hrpc.Scan) *pb.ScanResponse {
 	resp := &pb.ScanResponse{MoreResults: &no, MoreResultsInRegion: &no}
 	skey := r.StartRow()
 	table := r.StopRow()
-	var best *simRegion
-	for _, x := range c.regions {
-		if !bytes.Equal(x.fq(), table) {
-			continue
-		}
-		if region.Compare(x.name, skey) <= 0 {
-			if best == nil || region.Compare(x.name, best.name) > 0 {
-				best = x
+	pick := func(skipHidden bool) *simRegion {
+		var best *simRegion
+		for _, x := range c.regions {
+			if !bytes.Equal(x.fq(), table) || (skipHidden && x.hiddenN > 0) {
+				continue
+			}
+			if region.Compare(x.name, skey) <= 0 {
+				if best == nil || region.Compare(x.name, best.name) > 0 {
+					best = x
+				}
 			}
 		}
+		return best
+	}
+	best := pick(false)
+	if best != nil && best.hiddenN > 0 {
+		// a hole in hbase:meta: the row of this region is not there yet (region in transition);
+		// the reversed scan lands on the row before it
+		best.hiddenN--
+		best = pick(true)
 	}
 	if best == nil {
 		return resp
